@@ -78,4 +78,11 @@ var props = map[string]propSpec{
 		"call sequences: every sequence of depth 4 (quick) / 5 (thorough) over 16 operations {open, data/poll/close with valid, unknown, malformed arguments, backend-send, backend-close}, each run to quiescence on the virtual clock, against a reference model of the session table",
 		"concurrency: 10 pairs (thorough: + 4 triples) of calls on one session from 5 prelude states, all interleavings up to the preemption bound",
 	}},
+	"C10": {Level: "model_checking", Harnesses: []harnessSpec{
+		{Name: "sesshist", Quick: 120, Thorough: 1200},
+		{Name: "sessconc", Quick: 90, Thorough: 900},
+	}, Assume: []string{
+		"histories: every sequence of 3 requests over (client A/B/fresh) x 2 hosts x 2 paths x client-side cookies x 9 backend Set-Cookie replies (set, overwrite, delete by Max-Age and by Expires, path- and domain-scoped, Secure/HttpOnly, two at once) through the real session handler, against one reference cookie jar per session; session-cache limit 1000 so that no session is evicted (eviction is outside the property's premise)",
+		"concurrency: 2-3 concurrent requests of the same / different / no session under all interleavings up to the preemption bound; groupcache's lru.Cache is a declared non-thread-safe object (vector-clock race detection)",
+	}},
 }
